@@ -75,11 +75,11 @@ CHECKS = {
    design="§4 C11"),
  "C12": dict(
    text="The copy-on-write premises on the real code (after every writer of every registration history the previously published snapshot has an unchanged structural fingerprint; no-op and failing operations leave the routing state unchanged, a failed registerService leaves the snapshot pointer identical; an old snapshot resolves every symbolic request path identically before and after a second writer ran) AND, under the engine's cooperative goroutine model, the interleavings themselves: the REAL RegisterConn / registerService / DropConn run concurrently with each other and with a request for an already-registered method; every schedule within the context bound (2 / 3 preemptive switches; scheduling points at mutex, atomic snapshot load / store, pool operations and the reflection round trips) must end with the effect of both operations published, the request served and every live route dispatching. Schedule-dependent counterexamples are confirmed natively by stress replay against a real in-process gRPC backend.",
-   note="Trusted base as C11 plus the goroutine model (scheduling points only at synchronisation operations; validated per run by VerifH_sched_selftest, which must find the textbook lost update and must not find one under a mutex). NOT claimed: data-race freedom as such (no happens-before tracking), interleavings of unsynchronised memory accesses between two scheduling points, schedules beyond the context bound. Removing or narrowing Mux.mu is detected (lost update); replacing the atomic publication by a plain field is not.",
+   note="Trusted base as C11 plus the goroutine model (scheduling points only at synchronisation operations; validated per run by VerifH_sched_selftest, which must find the textbook lost update and must not find one under a mutex). A happens-before race detector (vector clocks; confirmed natively under go test -race) runs on the explored schedules: replacing the atomic publication by a plain field is reported as a data race, removing or narrowing Mux.mu as a lost update. NOT claimed: races on memory touched only inside engine intrinsics (copy, append, library models), atomicity violations between unsynchronised accesses that lie between two scheduling points, schedules beyond the context bound.",
    design="§4 C12"),
  "C13": dict(
    text="Pooled-buffer and pooled-compressor isolation on the real code: consecutive requests over larking's byte pool (HttpBody bodies retained by the first handler), the pooled gzip compressor with the REAL compress/gzip interpreted (consecutive calls reuse the pooled reader / writer, also after a truncated stream; two compressions in flight at once must get two writers), and - under the engine's cooperative goroutine model - two requests served CONCURRENTLY by one mux on every mix of HTTP transcoding, gRPC and gRPC-web text with scheduling points at every pool operation, atomic load and network read / write: each client must receive exactly the reply to its own request under every schedule within the context bound.",
-   note="Trusted base as C07 plus the goroutine model (see C12). NOT claimed: data-race freedom as such, more than two concurrent requests, schedules beyond the context bound, the proxy's stream pumps under C13 (they are exercised under C10). Detects: recycling a buffer before its last use, dropping the copy out of a pooled buffer, returning a pooled gzip writer twice, not resetting a pooled writer.",
+   note="Trusted base as C07 plus the goroutine model (see C12). The happens-before race detector runs on these schedules as well. NOT claimed: races on memory touched only inside engine intrinsics, more than two concurrent requests, schedules beyond the context bound, the proxy's stream pumps under C13 (they are exercised, with race detection, under C10). Detects: recycling a buffer before its last use, dropping the copy out of a pooled buffer, returning a pooled gzip writer twice, not resetting a pooled writer.",
    design="§4 C13"),
  "C20": dict(
    text="Bounded symbolic model checking of server mounting on the real code: NewServer with MuxHandleOption / HTTPHandlerOption is executed with net/http.ServeMux (pattern registration and routing), http.StripPrefix, the h2c wrapper and http2.ConfigureServer interpreted from source; a request sent as prefix+path to the server's handler must be answered exactly (status, every header, body, handler invocations, captured variables) as an identically built bare mux answers path, for the transcoding, error / Twirp, gRPC and gRPC-web entries and four mount configurations; a path outside every prefix must not reach the mux and a handler added with HTTPHandlerOption must keep its pattern.",
